@@ -851,9 +851,17 @@ def wd_sync_real(rt_ms, phase, pump_first, lats, horizon):
         def close(self):
             pass
 
-    def select(r, _w, _x, _timeout=None):
+    def select(r, w, _x, timeout=None):
+        # select() as the operating system does it: back at once when something asked for is ready (a connected
+        # socket is always writable); otherwise it blocks until data arrives or the timeout passes — for good
+        # when there is no timeout and the peer stays silent
         ready = any(a <= clock.ms for a in state["arrivals"])
-        return ([r[0]] if ready else [], [r[0]], [])
+        if not ready and not w:
+            future = [a - clock.ms for a in state["arrivals"] if a > clock.ms]
+            waits = future + ([to_ms(timeout)] if timeout is not None else [])
+            coop.park("select", min(waits) if waits else 2 * horizon + 1)
+            ready = any(a <= clock.ms for a in state["arrivals"])
+        return ([r[0]] if ready else [], list(w), [])
 
     def sleep(secs):
         coop.park("sleep", to_ms(secs))
